@@ -307,6 +307,8 @@ def opEDIT (args res : List String) : Findings := Id.run do
   let some b := args[0]?.bind board? | return #[⟨'E', "parse", "bad board"⟩]
   let some cmd := args[1]? | return #[⟨'E', "parse", "EDIT cmd"⟩]
   let impl := res.headD "?"
+  -- the crate no longer has this (deprecated) mutator: nothing to compare
+  if impl == "UNAVAILABLE" then return #[]
   let cs := cmd.toList
   let tailStr (n : Nat) : String := String.ofList (cs.drop n)
   let model : Option (Option Board) :=
@@ -338,7 +340,11 @@ def opEDIT (args res : List String) : Findings := Id.run do
     | none => pure ()
     | some b' =>
       let p' := memo b'.abs
-      if Valid p' then fs := wfFindings fs "ewf." b' p'
+      if Valid p' then
+        fs := wfFindings fs "ewf." b' p'
+        match (field? res "gh").bind bb? with
+        | some gh => if gh != p'.hashOf T then fs := fs.push (fO "ewf.ghash" s!"get_hash() of the edited position is {showBB gh}, from-scratch hash of that position is {showBB (p'.hashOf T)}")
+        | none => pure ()
     return fs
 
 /-! ### dispatch -/
